@@ -108,8 +108,13 @@ pub struct World {
     /// receiving futures created so far: (channel, dropped or finished)
     recvs: Vec<(usize, bool)>,
     pre_dropped: Vec<Path>,
-    /// groups of the commands returned by update (command API), in launch order
+    /// groups of the commands returned by update (command API), in launch order: an outer group that
+    /// stands for the command object itself (tasks spawned on it later live there, outside whatever
+    /// the outermost node maps) ...
     hosted: Vec<Gid>,
+    /// ... and whether the shell may spawn on it (not if its outermost node hands out an abort handle:
+    /// the handle would cover the late task too)
+    hosted_spawnable: Vec<bool>,
     cur_task: Option<Tid>,
     cur_wait: Vec<Src>,
     cur_selfwake: bool,
@@ -558,6 +563,10 @@ impl RefRt {
     pub fn with_legacy_mask(self, mask: u8) -> Self {
         self.w.lock().unwrap().legacy_mask = mask;
         self
+    }
+    /// commands returned by update so far, and whether the shell may spawn a further task on each
+    pub fn late_spawn_targets(&self) -> Vec<bool> {
+        self.w.lock().unwrap().hosted_spawnable.clone()
     }
     /// tasks of the legacy API that have not finished (the core's executor holds each of them)
     pub fn live_legacy_tasks(&self) -> usize {
@@ -1090,8 +1099,11 @@ impl RefRt {
                         if legacy_host || crate::app::through_legacy_api(mask, p, &c) {
                             root.launch_legacy(&c);
                         } else {
-                            let g = root.launch(&c);
-                            self.w.lock().unwrap().hosted.push(g);
+                            let outer = self.w.lock().unwrap().new_group(Some(0));
+                            self.child(outer).launch(&c);
+                            let mut w = self.w.lock().unwrap();
+                            w.hosted.push(outer);
+                            w.hosted_spawnable.push(!matches!(c, Cmd::Abortable(..)));
                         }
                     }
                 }
@@ -1138,6 +1150,11 @@ impl RefRt {
                     }
                 }
                 Tr::AbortGroup(slot) => self.w.lock().unwrap().abort_slot(*slot, false),
+                Tr::LateSpawn(ix, path, stmts) => {
+                    let g = self.w.lock().unwrap().hosted.get(*ix).copied();
+                    let Some(g) = g else { return Err(format!("driver error: late spawn on command {ix}, which the reference does not have")) };
+                    self.child(g).visible(path.clone(), stmts.clone());
+                }
                 Tr::AbortTask(key) => {
                     let hs: Vec<JoinH> = self.w.lock().unwrap().exports.iter().filter(|(k, _)| k == key).map(|(_, h)| h.clone()).collect();
                     for h in hs {
